@@ -79,9 +79,15 @@ template<typename K> static void run_op(int op, Reg& reg, const Line& t, Out& o)
     T x = K::enc(t.at(2));
     double ri = s.get_rank(x, true), re = s.get_rank(x, false);
     o.R(numer(ri, s.get_n())); o.R(numer(re, s.get_n())); o.R(s.is_estimation_mode() ? 1 : 0);
-    o.Fd(ri); o.Fd(re);
-    // the published bounds around the estimate (1..3 standard deviations)
-    for (uint8_t sd = 1; sd <= 3; ++sd) { o.Fd(s.get_rank_lower_bound(ri, sd)); o.Fd(s.get_rank_upper_bound(ri, sd)); }
+    // the ranks as doubles and the published bounds around the inclusive estimate (1..3 standard deviations): only
+    // IEEE + - * / sqrt and comparisons, compared bit for bit with the model
+    o.R(vh::dbits(ri)); o.R(vh::dbits(re));
+    for (uint8_t sd = 1; sd <= 3; ++sd) { o.R(vh::dbits(s.get_rank_lower_bound(ri, sd))); o.R(vh::dbits(s.get_rank_upper_bound(ri, sd))); }
+    break; }
+  case 22: { // published bounds at the rank j / 2^t with sd standard deviations
+    if (t.at(2) < 0 || t.at(3) < 0 || t.at(3) > 40 || t.at(2) > ((I)1 << (unsigned)t.at(3)) || t.at(4) < 0 || t.at(4) > 255) throw std::invalid_argument("args");
+    double rank = (double)(int64_t)t.at(2) / (double)((uint64_t)1 << (unsigned)t.at(3));
+    o.R(vh::dbits(s.get_rank_lower_bound(rank, (uint8_t)t.at(4)))); o.R(vh::dbits(s.get_rank_upper_bound(rank, (uint8_t)t.at(4))));
     break; }
   case 7: { // quantile at rank j / 2^t
     double rank = (double)(int64_t)t.at(2) / (double)((uint64_t)1 << (unsigned)t.at(3));
@@ -188,6 +194,11 @@ static void handler(const Line& t, Out& o) {
       raw = ssr; sz = ne;
     }
     break; }
+  case 21: { // static get_RSE(k, j / 2^t, hra, n)
+    I k = t.at(1), j = t.at(2), tt = t.at(3), n = t.at(5);
+    if (k < 0 || k > 65535 || j < 0 || tt < 0 || tt > 40 || j > ((I)1 << (unsigned)tt) || n < 0) throw std::invalid_argument("args");
+    double rank = (double)(int64_t)j / (double)((uint64_t)1 << (unsigned)tt);
+    o.R(vh::dbits(req_sketch<float>::get_RSE((uint16_t)k, rank, t.at(4) != 0, (uint64_t)n))); break; }
   case 97: o.R(1); o.F((I)vh::source().scripted.size()); break;
   default: {
     Reg& g = get(t.at(1));
